@@ -24,3 +24,8 @@ CLAIMED['C17'] = (
  'For every integer amount 0..21e14 and every digit string of the listed decimal counts, for each denominator from µsat to M and the listed networks, z3 shows the real parsing code returns exactly the integer number of smallest units (or exactly the listed off-by-one deviation above 2^50 for non-unit denominators); from_satoshi round trip and Value.str digits exact for unit and sat denominators; Transaction.add_output accepts a float only if it is an exact integer. Each float operation is modelled exactly (round-half-even with explicit remainder), validated by replaying a witness per path on real floats.',
  "Trusted: z3 (LIA), the exact float model symx/lia.py (validated per path), contracts of float(str) and '%.Nf' (correct rounding). Outside: 'auto' denominator, Value arithmetic operators, from_satoshi with m/µ/fin/c/d denominators (z3 timeouts, not claimed), negative amounts.",
  'DESIGN.md C17')
+CLAIMED['C13'] = (
+ 'symbolic execution of the real Signature code and the pure-Python DER encoder (symx, 272-bit bit-vectors) with nondeterministic stubs for the C signer/verifier; per-path SMT obligations',
+ 'For every (r, s) the C signer may return (length classes 1/16/31/32 bytes, every value inside), z3 shows Signature.create returns low S with the same r, DER output is the strict BIP66 encoding plus hash type, range checks accept exactly [1, n-1], compact and DER blobs parse back to (r, s, hash type); the verifier path refuses off-curve keys for both encodings and returns exactly the C verifier result; the nonce is the RFC6979 output for (digest, secret) or the explicit k.',
+ 'Trusted: z3, proxy/shim layer, stubs for fastecdsa C functions (arbitrary results). Outside: validity under an independent verifier, exactness of the C verifier, nonce uniqueness. Listed finding: DER blobs of <= 64 bytes are rejected by parse_bytes.',
+ 'DESIGN.md C13')
